@@ -416,8 +416,28 @@ Section Field.
   Qed.
 
   (* deserialize_list_like(field, content_type, value, ...) for the three shapes of field.items *)
+  (* `if isinstance(field, Tuple) and len(items) == 1: items = items[0]` *)
+  Lemma len_eq_one (l : list pyval) : py_eqv (PNum (NInt (lenZ' l))) (zint 1) = Ok (Nat.eqb (length l) 1).
+  Proof.
+    unfold py_eqv, zint, lenZ'. cbn [py_eq as_num]. rewrite num_eqb_int. f_equal.
+    destruct (Nat.eqb_spec (length l) 1) as [E|E]; [apply Z.eqb_eq; lia | apply Z.eqb_neq; lia].
+  Qed.
+
+  Lemma len_lt {A B} (a : list A) (b : list B) :
+    py_lt (PNum (NInt (lenZ' a))) (PNum (NInt (lenZ' b))) = Ok (length a <? length b)%nat.
+  Proof.
+    unfold py_lt, zint, lenZ'. cbn [as_num]. rewrite num_ltb_int. f_equal.
+    destruct (Nat.ltb_spec (length a) (length b)) as [E|E]; [apply Z.ltb_lt; lia | apply Z.ltb_ge; lia].
+  Qed.
+
+  (* the shape of field.items, as deserialize_list_like reads it:
+     [Some g] -- every element against g: items is the Field g, or field is a Tuple whose items is the list [g] *)
+  Definition items_each (fo : pyval) (g : field) : Prop :=
+    (cls_isinstance tbl fo [s2p "Tuple"] = Ok false /\ fld_getattr h fo (s2p "items") = Ok (fld_py g)) \/
+    (cls_isinstance tbl fo [s2p "Tuple"] = Ok true /\ fld_getattr h fo (s2p "items") = Ok (PList [fld_py g])).
+
   Lemma list_like_each (R : recs) fo (t : seqtarget) g j name kuv mapper camel (M : pyval -> res pyval) (P : pyval -> bool) :
-    fld_getattr h fo (s2p "items") = Ok (fld_py g) ->
+    items_each fo g ->
     (forall x nm, P x = true -> r_deserialize_single_field R (fld_py g) x nm mapper kuv camel (PBool false) = M x) ->
     not_set j = true ->
     (forall l, list_like j = Some l -> forallb P l = true) ->
@@ -429,16 +449,22 @@ Section Field.
   Proof.
     intros Hitems Hg Hns HP. unfold src_deserialize_list_like.
     destruct j; try discriminate Hns; try reflexivity.
-    - cbn [py_isinstance existsb isinstance1 orb py_not bind negb list_like]. rewrite Hitems. cbn [bind].
-      rewrite fld_is_field. cbn [bind]. rewrite fld_ignore_none. cbn [bind py_iter]. unfold py_enumerate.
-      rewrite (loop1_eq R (fld_py g) name kuv mapper camel (PBool false) M P Hg) by (apply HP; reflexivity).
-      cbn [app]. destruct (mapR (fun x => rewrap (M x)) l) as [r|ex]; [|reflexivity].
-      cbn [bind]. apply call_ctype. reflexivity.
-    - cbn [py_isinstance existsb isinstance1 orb py_not bind negb list_like]. rewrite Hitems. cbn [bind].
-      rewrite fld_is_field. cbn [bind]. rewrite fld_ignore_none. cbn [bind py_iter]. unfold py_enumerate.
-      rewrite (loop1_eq R (fld_py g) name kuv mapper camel (PBool false) M P Hg) by (apply HP; reflexivity).
-      cbn [app]. destruct (mapR (fun x => rewrap (M x)) l) as [r|ex]; [|reflexivity].
-      cbn [bind]. apply call_ctype. reflexivity.
+    - cbn [py_isinstance existsb isinstance1 orb py_not bind negb list_like].
+      destruct Hitems as [[Htup Hitems]|[Htup Hitems]]; rewrite Hitems; cbn [bind]; rewrite Htup;
+        cbn [py_and bind py_len]; [|rewrite len_eq_one; cbn [length Nat.eqb bind];
+          change (py_subscript (PList [fld_py g]) (zint 0)) with (@Ok pyval (fld_py g)); cbn [bind]];
+        (rewrite fld_is_field; cbn [bind]; rewrite fld_ignore_none; cbn [bind py_iter]; unfold py_enumerate;
+         rewrite (loop1_eq R (fld_py g) name kuv mapper camel (PBool false) M P Hg) by (apply HP; reflexivity);
+         cbn [app]; destruct (mapR (fun x => rewrap (M x)) l) as [r|ex]; [|reflexivity];
+         cbn [bind]; apply call_ctype; reflexivity).
+    - cbn [py_isinstance existsb isinstance1 orb py_not bind negb list_like].
+      destruct Hitems as [[Htup Hitems]|[Htup Hitems]]; rewrite Hitems; cbn [bind]; rewrite Htup;
+        cbn [py_and bind py_len]; [|rewrite len_eq_one; cbn [length Nat.eqb bind];
+          change (py_subscript (PList [fld_py g]) (zint 0)) with (@Ok pyval (fld_py g)); cbn [bind]];
+        (rewrite fld_is_field; cbn [bind]; rewrite fld_ignore_none; cbn [bind py_iter]; unfold py_enumerate;
+         rewrite (loop1_eq R (fld_py g) name kuv mapper camel (PBool false) M P Hg) by (apply HP; reflexivity);
+         cbn [app]; destruct (mapR (fun x => rewrap (M x)) l) as [r|ex]; [|reflexivity];
+         cbn [bind]; apply call_ctype; reflexivity).
   Qed.
 
   Lemma pos_model_items (D : field -> pyval -> res pyval) : forall fs vs,
@@ -460,28 +486,42 @@ Section Field.
   Qed.
 
   Lemma list_like_pos (R : recs) fo (t : seqtarget) items j name kuv mapper camel
-        (D : field -> pyval -> res pyval) :
+        (D : field -> pyval -> res pyval) (istup : bool) :
     fld_getattr h fo (s2p "items") = Ok (PList (map fld_py items)) ->
+    cls_isinstance tbl fo [s2p "Tuple"] = Ok istup ->
+    (istup = true -> Nat.eqb (length items) 1 = false) ->
     not_set j = true ->
     (forall l, list_like j = Some l -> pos_hyp R mapper kuv camel D items l) ->
     src_deserialize_list_like h ext R fo (ctype_of t) j name kuv mapper camel =
     match list_like j with
     | None => Raise ValueError
-    | Some l => r <- (ys <- pos_items D items l ;; Ok (ys ++ skipn (length items) l)) ;; build_seq t r
+    | Some l =>
+        if (length l <? length items)%nat then Raise ValueError
+        else r <- (ys <- pos_items D items l ;; Ok (ys ++ skipn (length items) l)) ;; build_seq t r
     end.
   Proof.
-    intros Hitems Hns HP. unfold src_deserialize_list_like.
+    intros Hitems Htup Hone Hns HP. unfold src_deserialize_list_like.
+    assert (Hguard : py_and (cls_isinstance tbl fo [s2p "Tuple"])
+                       (fun _ => t4 <- py_len (PList (map fld_py items)) ;; py_eqv t4 (zint 1)) = Ok false).
+    { rewrite Htup. destruct istup; cbn [py_and bind py_len]; [|reflexivity].
+      rewrite len_eq_one, map_length, (Hone eq_refl). reflexivity. }
     destruct j; try discriminate Hns; try reflexivity.
-    - cbn [py_isinstance existsb isinstance1 orb py_not bind negb list_like]. rewrite Hitems.
-      cbn [bind cls_isinstance py_isinstance existsb isinstance1 orb py_iter]. unfold py_enumerate.
+    - cbn [py_isinstance existsb isinstance1 orb py_not bind negb list_like]. rewrite Hitems. cbn [bind].
+      rewrite Hguard.
+      cbn [bind cls_isinstance py_isinstance existsb isinstance1 orb py_iter py_len].
+      rewrite len_lt, map_length. cbn [bind]. destruct (length l <? length items)%nat; [reflexivity|].
+      unfold py_enumerate.
       rewrite (loop2_eq R (PList l) name kuv mapper camel D _ items [] l [] (HP l eq_refl)) by reflexivity.
       destruct (pos_items D items l) as [ys|ex] eqn:E; [|reflexivity].
       pose proof (pos_items_length D _ _ _ E) as Hlen.
       cbn [app py_len bind]. unfold lenZ'. rewrite map_length.
       cbn [PyOpsVersioned.py_slice PyOpsVersioned.slice_index bind]. rewrite (slice_from l _ Hlen).
       cbn [py_list_extend py_iter bind]. apply call_ctype. reflexivity.
-    - cbn [py_isinstance existsb isinstance1 orb py_not bind negb list_like]. rewrite Hitems.
-      cbn [bind cls_isinstance py_isinstance existsb isinstance1 orb py_iter]. unfold py_enumerate.
+    - cbn [py_isinstance existsb isinstance1 orb py_not bind negb list_like]. rewrite Hitems. cbn [bind].
+      rewrite Hguard.
+      cbn [bind cls_isinstance py_isinstance existsb isinstance1 orb py_iter py_len].
+      rewrite len_lt, map_length. cbn [bind]. destruct (length l <? length items)%nat; [reflexivity|].
+      unfold py_enumerate.
       rewrite (loop2_eq R (PTuple l) name kuv mapper camel D _ items [] l [] (HP l eq_refl)) by reflexivity.
       destruct (pos_items D items l) as [ys|ex] eqn:E; [|reflexivity].
       pose proof (pos_items_length D _ _ _ E) as Hlen.
@@ -492,6 +532,7 @@ Section Field.
 
   Lemma list_like_plain (R : recs) fo (t : seqtarget) j name kuv mapper camel :
     fld_getattr h fo (s2p "items") = Ok PNone ->
+    cls_isinstance tbl fo [s2p "Tuple"] = Ok false ->
     not_set j = true ->
     src_deserialize_list_like h ext R fo (ctype_of t) j name kuv mapper camel =
     match list_like j with
@@ -499,12 +540,14 @@ Section Field.
     | Some l => build_seq t l
     end.
   Proof.
-    intros Hitems Hns. unfold src_deserialize_list_like.
+    intros Hitems Htup Hns. unfold src_deserialize_list_like.
     destruct j; try discriminate Hns; try reflexivity.
-    - cbn [py_isinstance existsb isinstance1 orb py_not bind negb list_like]. rewrite Hitems.
-      cbn [bind cls_isinstance py_isinstance existsb isinstance1 orb]. apply call_ctype. reflexivity.
-    - cbn [py_isinstance existsb isinstance1 orb py_not bind negb list_like]. rewrite Hitems.
-      cbn [bind cls_isinstance py_isinstance existsb isinstance1 orb]. apply call_ctype. reflexivity.
+    - cbn [py_isinstance existsb isinstance1 orb py_not bind negb list_like]. rewrite Hitems. cbn [bind].
+      rewrite Htup.
+      cbn [py_and bind cls_isinstance py_isinstance existsb isinstance1 orb]. apply call_ctype. reflexivity.
+    - cbn [py_isinstance existsb isinstance1 orb py_not bind negb list_like]. rewrite Hitems. cbn [bind].
+      rewrite Htup.
+      cbn [py_and bind cls_isinstance py_isinstance existsb isinstance1 orb]. apply call_ctype. reflexivity.
   Qed.
 
   (* ---- deserialize_multifield_wrapper *)
@@ -605,14 +648,14 @@ Section Field.
     apply pystr_eqb_spec in H. subst. reflexivity.
   Qed.
 
-  Lemma map_loop_eq (R : recs) (kfo vfo name camel : pyval) (Dk Dv : pyval -> res pyval) (Pk Pv : pyval -> bool)
+  Lemma map_loop_eq (R : recs) (kfo vfo name camel kuv : pyval) (Dk Dv : pyval -> res pyval) (Pk Pv : pyval -> bool)
         (K : pyval -> res pyval)
-        (Hk : forall x nm, Pk x = true -> r_deserialize_single_field R kfo x nm PNone (PBool true) camel (PBool false) = Dk x)
-        (Hv : forall x nm, Pv x = true -> r_deserialize_single_field R vfo x nm PNone (PBool true) camel (PBool false) = Dv x)
+        (Hk : forall x nm, Pk x = true -> r_deserialize_single_field R kfo x nm PNone kuv camel (PBool false) = Dk x)
+        (Hv : forall x nm, Pv x = true -> r_deserialize_single_field R vfo x nm PNone kuv camel (PBool false) = Dv x)
         (Hvi : fld_getattr_def h vfo (s2p "_ignore_none") (PBool false) = Ok (PBool false)) :
     forall kv acc,
       forallb (fun p => Pk (fst p) && Pv (snd p) && entry_ok (Dk (fst p)) (Dv (snd p))) kv = true ->
-      src_deserialize_map_loop1 h ext R name camel kfo vfo K kv (PDict acc) =
+      src_deserialize_map_loop1 h ext R name camel kuv kfo vfo K kv (PDict acc) =
       match mapR (fun p => k' <- Dk (fst p) ;; v' <- Dv (snd p) ;; Ok (k', v')) kv with
       | Ok r => K (PDict (dict_of_pairs acc r))
       | Raise x => Raise x
@@ -674,13 +717,13 @@ Section Field.
     mapR (fun p => k' <- Ok (fst p) ;; v' <- Ok (snd p) ;; Ok (k', v')) kv = Ok kv.
   Proof. induction kv as [|[k v] kv IH]; [reflexivity|]. cbn [mapR]. rewrite IH. reflexivity. Qed.
 
-  Lemma map_kv_eq (R : recs) kf vf j name camel (Dk Dv : pyval -> res pyval) (Pk Pv : pyval -> bool) :
-    (forall x nm, Pk x = true -> r_deserialize_single_field R (fld_py kf) x nm PNone (PBool true) camel (PBool false) = Dk x) ->
-    (forall x nm, Pv x = true -> r_deserialize_single_field R (fld_py vf) x nm PNone (PBool true) camel (PBool false) = Dv x) ->
+  Lemma map_kv_eq (R : recs) kf vf j name camel kuv (Dk Dv : pyval -> res pyval) (Pk Pv : pyval -> bool) :
+    (forall x nm, Pk x = true -> r_deserialize_single_field R (fld_py kf) x nm PNone kuv camel (PBool false) = Dk x) ->
+    (forall x nm, Pv x = true -> r_deserialize_single_field R (fld_py vf) x nm PNone kuv camel (PBool false) = Dv x) ->
     (forall kv, j = PDict kv ->
        forallb (fun p => Pk (fst p) && Pv (snd p) && entry_ok (Dk (fst p)) (Dv (snd p))) kv = true) ->
     src_deserialize_map h ext R
-      (PStruct (s2p "Map") [(s2p "items", PList [fld_py kf; fld_py vf]); (s2p "_ty", bref (s2p "dict"))]) j name camel =
+      (PStruct (s2p "Map") [(s2p "items", PList [fld_py kf; fld_py vf]); (s2p "_ty", bref (s2p "dict"))]) j name camel kuv =
     match j with
     | PDict kv =>
         r <- mapR (fun p => k' <- Dk (fst p) ;; v' <- Dv (snd p) ;; Ok (k', v')) kv ;;
@@ -694,18 +737,18 @@ Section Field.
     change (fld_getattr h (PStruct (s2p "Map") [(s2p "items", PList [fld_py kf; fld_py vf]); (s2p "_ty", bref (s2p "dict"))])
                         (s2p "items")) with (@Ok pyval (PList [fld_py kf; fld_py vf])).
     cbn [bind py_truthy length Nat.eqb negb PyOpsDerive.py_unpack PyOpsDerive.py_iter_items py_dict_items].
-    rewrite (map_loop_eq R (fld_py kf) (fld_py vf) name camel Dk Dv Pk Pv _ Hk Hv (fld_ignore_none vf) kv [] HP).
+    rewrite (map_loop_eq R (fld_py kf) (fld_py vf) name camel kuv Dk Dv Pk Pv _ Hk Hv (fld_ignore_none vf) kv [] HP).
     destruct (mapR _ kv) as [r|ex] eqn:E; [|reflexivity]. cbn [bind].
     rewrite (map_entries_hashable Dk Dv kv r); [reflexivity| |exact E].
     clear -HP. induction kv as [|p kv IH]; [reflexivity|]. cbn [forallb] in *.
     apply andb_true_iff in HP as [H1 H2]. apply andb_true_iff in H1 as [_ H1]. rewrite H1. exact (IH H2).
   Qed.
 
-  Lemma map_any_eq (R : recs) j name camel (P : pyval -> bool) :
-    (forall x nm, P x = true -> r_deserialize_single_field R PNone x nm PNone (PBool true) camel (PBool false) = Ok x) ->
+  Lemma map_any_eq (R : recs) j name camel kuv (P : pyval -> bool) :
+    (forall x nm, P x = true -> r_deserialize_single_field R PNone x nm PNone kuv camel (PBool false) = Ok x) ->
     (forall kv, j = PDict kv ->
        forallb (fun p => P (fst p) && P (snd p) && py_hashable (fst p)) kv = true /\ keys_distinct [] kv = true) ->
-    src_deserialize_map h ext R (PStruct (s2p "Map") [(s2p "items", PNone); (s2p "_ty", bref (s2p "dict"))]) j name camel =
+    src_deserialize_map h ext R (PStruct (s2p "Map") [(s2p "items", PNone); (s2p "_ty", bref (s2p "dict"))]) j name camel kuv =
     match j with PDict _ => Ok j | _ => Raise TypeError end.
   Proof.
     intros HN HP. unfold src_deserialize_map. destruct j; try reflexivity.
@@ -714,7 +757,7 @@ Section Field.
     change (fld_getattr h (PStruct (s2p "Map") [(s2p "items", PNone); (s2p "_ty", bref (s2p "dict"))]) (s2p "items"))
       with (@Ok pyval PNone).
     cbn [bind py_truthy py_dict_items].
-    rewrite (map_loop_eq R PNone PNone name camel (fun x => Ok x) (fun x => Ok x) P P _ HN HN eq_refl kv []).
+    rewrite (map_loop_eq R PNone PNone name camel kuv (fun x => Ok x) (fun x => Ok x) P P _ HN HN eq_refl kv []).
     - cbv beta. rewrite mapR_id_pairs. rewrite (dict_of_pairs_distinct kv [] HP2). reflexivity.
     - clear -HP1. induction kv as [|p kv IH]; [reflexivity|]. cbn [forallb entry_ok] in *.
       apply andb_true_iff in HP1 as [H1 H2]. rewrite H1. exact (IH H2).
@@ -812,14 +855,15 @@ Section Field.
     | FSeqEach _ g _ _ => each g
     | FSet _ (Some g) _ => each g
     | FSeqPos _ items _ _ _ => positional items
+    | FTuple [g] _ => each g
     | FTuple items _ => positional items
     | FAllOf fs | FAnyOf fs | FOneOf fs | FNot fs => forallb (fun g => order_ok ku g j) fs
     | FMapKV kf vf _ =>
         match j with
         | PDict kv =>
-            forallb (fun p => order_ok true kf (fst p) && order_ok true vf (snd p) &&
-                              entry_ok (deser_val re_match e ens rec true false kf (fst p))
-                                       (deser_val re_match e ens rec true false vf (snd p))) kv
+            forallb (fun p => order_ok ku kf (fst p) && order_ok ku vf (snd p) &&
+                              entry_ok (deser_val re_match e ens rec ku false kf (fst p))
+                                       (deser_val re_match e ens rec ku false vf (snd p))) kv
         | _ => true
         end
     | _ => true
@@ -865,7 +909,9 @@ Section Field.
     let positional (t : seqtarget) (items : list field) :=
         match list_like j with
         | None => Raise ValueError
-        | Some l => r <- (ys <- pos_items (D ku false) items l ;; Ok (ys ++ skipn (length items) l)) ;; build_seq t r
+        | Some l =>
+            if (length l <? length items)%nat then Raise ValueError
+            else r <- (ys <- pos_items (D ku false) items l ;; Ok (ys ++ skipn (length items) l)) ;; build_seq t r
         end in
     let plain (t : seqtarget) :=
         match list_like j with
@@ -882,6 +928,7 @@ Section Field.
     | FSeqAny k _ _ => plain (seq_target k)
     | FSeqEach k g _ _ => each (seq_target k) g
     | FSeqPos k items _ _ _ => positional (seq_target k) items
+    | FTuple [g] _ => each TTuple g
     | FTuple items _ => positional TTuple items
     | FSet _ (Some g) _ => each TSet g
     | FSet _ None _ => plain TSet
@@ -893,21 +940,27 @@ Section Field.
     | FMapKV kf vf _ =>
         match j with
         | PDict kv =>
-            r <- mapR (fun p => k' <- D true false kf (fst p) ;; v' <- D true false vf (snd p) ;; Ok (k', v')) kv ;;
+            r <- mapR (fun p => k' <- D ku false kf (fst p) ;; v' <- D ku false vf (snd p) ;; Ok (k', v')) kv ;;
             if forallb (fun p => py_hashable (fst p)) r then Ok (PDict (dict_of_pairs [] r)) else Raise TypeError
         | _ => Raise TypeError
         end
     | FMapAny _ => match j with PDict _ => Ok j | _ => Raise TypeError end
-    | FEnumLit _ => _ <- validate_weak re_match e f j ;; Ok j
-    | FEnumCls cls members => deser_enum_cls re_match e ens f cls members j
+    | FEnumLit _ => rewrap_ve (_ <- validate_weak re_match e f j ;; Ok j)
+    | FEnumCls cls members => rewrap_ve (deser_enum_cls re_match e ens f cls members j)
     | FAnything => Ok j
-    | FNone =>
-        match j with
-        | PList [] | PDict [] => Ok PNone
-        | PList _ | PDict _ => Raise TypeError
-        | _ => Raise ValueError
-        end
+    | FNone => Raise ValueError
     end.
+
+  Lemma deser_body_tuple_pos ku fs u j : Nat.eqb (length fs) 1 = false ->
+    deser_body ku (FTuple fs u) j =
+    match list_like j with
+    | None => Raise ValueError
+    | Some l =>
+        if (length l <? length fs)%nat then Raise ValueError
+        else r <- (ys <- pos_items (deser_val re_match e ens rec ku false) fs l ;; Ok (ys ++ skipn (length fs) l)) ;;
+             build_seq TTuple r
+    end.
+  Proof. intro H. destruct fs as [|g0 [|g1 fs']]; [reflexivity | discriminate H | reflexivity]. Qed.
 
   Lemma deser_val_body ku ign f j :
     deser_val re_match e ens rec ku ign f j =
@@ -954,6 +1007,9 @@ Section Field.
       + destruct (model_exn ex); [discriminate H|]. destruct k; try discriminate H; exact (IH _ _ _ _ HF' Hd H).
   Qed.
 
+  Lemma rewrap_ve_ok {A} (r : res A) v : rewrap_ve r = Ok v -> r = Ok v.
+  Proof. destruct r as [a|x]; cbn [rewrap_ve]; [auto|]. destruct (is_ve x); discriminate. Qed.
+
   Lemma deser_val_bound : forall f ku ign j v,
     doc_ok j = true -> deser_val re_match e ens rec ku ign f j = Ok v -> is_unbound v = false.
   Proof.
@@ -965,10 +1021,11 @@ Section Field.
     - destruct (validate_weak re_match e _ j); [|discriminate HV]. inversion HV; subst. apply doc_ok_bound; exact Hj.
     - destruct (validate_weak re_match e _ j); [|discriminate HV]. inversion HV; subst. apply doc_ok_bound; exact Hj.
     - destruct (validate_weak re_match e _ j); [|discriminate HV]. inversion HV; subst. apply doc_ok_bound; exact Hj.
-    - destruct j as [| | | |[|? ?]| | | |[|? ?]| | |]; inversion HV; reflexivity.
+    - discriminate HV.
     - inversion HV; subst. apply doc_ok_bound; exact Hj.
-    - destruct (validate_weak re_match e _ j); [|discriminate HV]. inversion HV; subst. apply doc_ok_bound; exact Hj.
-    - unfold deser_enum_cls in HV.
+    - apply rewrap_ve_ok in HV.
+      destruct (validate_weak re_match e _ j); [|discriminate HV]. inversion HV; subst. apply doc_ok_bound; exact Hj.
+    - apply rewrap_ve_ok in HV. unfold deser_enum_cls in HV.
       destruct (enum_by_value ens cls).
       + destruct (negb (py_hashable j)); [discriminate HV|]. destruct (find _ _); inversion HV; reflexivity.
       + destruct j; try (destruct (validate_weak re_match e _ _); [|discriminate HV]; inversion HV; subst;
@@ -976,10 +1033,12 @@ Section Field.
         destruct (alist_has ms s); [|discriminate HV]. destruct (alist_get _ s); inversion HV; reflexivity.
     - destruct (list_like j); [|discriminate HV]. exact (build_seq_bound _ _ _ HV).
     - destruct (list_like j); [|discriminate HV]. exact (bind_build_bound _ _ _ HV).
-    - destruct (list_like j); [|discriminate HV]. exact (bind_build_bound _ _ _ HV).
+    - destruct (list_like j) as [l|]; [|discriminate HV].
+      destruct (length l <? length fs)%nat; [discriminate HV|]. exact (bind_build_bound _ _ _ HV).
     - destruct (list_like j); [|discriminate HV]. exact (build_seq_bound _ _ _ HV).
     - destruct (list_like j); [|discriminate HV]. exact (bind_build_bound _ _ _ HV).
-    - destruct (list_like j); [|discriminate HV]. exact (bind_build_bound _ _ _ HV).
+    - destruct fs as [|g0 [|g1 fs']]; (destruct (list_like j) as [l|]; [|discriminate HV]);
+        try (destruct (length l <? _)%nat; [discriminate HV|]); exact (bind_build_bound _ _ _ HV).
     - destruct j; inversion HV; reflexivity.
     - destruct j; try discriminate HV. destruct (mapR _ kv) as [r|]; [|discriminate HV]. cbn [bind] in HV.
       destruct (forallb _ r); inversion HV; reflexivity.
@@ -1018,7 +1077,7 @@ Section Field.
        r_deserialize_tuple := fun _ _ _ _ _ _ => Raise Unmodelled;
        r_deserialize_set := fun _ _ _ _ _ _ => Raise Unmodelled;
        r_deserialize_multifield_wrapper := fun _ _ _ _ _ _ => Raise Unmodelled;
-       r_deserialize_map := fun _ _ _ _ => Raise Unmodelled;
+       r_deserialize_map := fun _ _ _ _ _ => Raise Unmodelled;
        r_deserialize_single_field := fun _ _ _ _ _ _ _ => Raise Unmodelled;
        r_construct_fields_map := fun _ _ _ _ _ _ _ _ _ => Raise Unmodelled;
        r_deserialize_structure_internal := dsi_of |}.
@@ -1071,6 +1130,20 @@ Section Field.
     (t <- X ;; t' <- py_local t ;; Ok t') = X.
   Proof.
     intro H. destruct X as [v|ex]; [|reflexivity]. cbn [bind]. unfold py_local. rewrite (H v eq_refl). reflexivity.
+  Qed.
+
+  (* `try: value = field.deserialize(source_val)  except ValueError as e: raise ValueError(...)`, then `return value` *)
+  Lemma caught_ve x : exn_caught xtbl x [s2p "ValueError"] = is_ve x.
+  Proof. destruct x; vm_compute; reflexivity. Qed.
+
+  Lemma ret_serializable (X : res pyval) :
+    (forall v, rewrap_ve X = Ok v -> is_unbound v = false) ->
+    bind_or X (fun x => if exn_caught xtbl x [s2p "ValueError"] then Raise ValueError else Raise x)
+            (fun t => t' <- py_local t ;; Ok t') = rewrap_ve X.
+  Proof.
+    intro H. destruct X as [v|ex]; cbn [bind_or rewrap_ve].
+    - unfold py_local. rewrite (H v eq_refl). reflexivity.
+    - rewrite caught_ve. reflexivity.
   Qed.
 
   Lemma ret_local2 (X : res pyval) :
@@ -1190,8 +1263,8 @@ Section Field.
       unfold py_local; rewrite Hx; reflexivity.
   Qed.
 
-  Lemma wrap_map n fo j name camel :
-    r_deserialize_map (F (S n)) fo j name camel = src_deserialize_map h ext (F n) fo j name camel.
+  Lemma wrap_map n fo j name camel kuv :
+    r_deserialize_map (F (S n)) fo j name camel kuv = src_deserialize_map h ext (F n) fo j name camel kuv.
   Proof. reflexivity. Qed.
 
   Lemma wrap_multi n fo j name kuv mapper camel :
@@ -1225,16 +1298,7 @@ Section Field.
     - (* FNone *)
       unfold src_deserialize_single_field. cbn [fld_py]. cls_eval. rewrite first_test.
       rewrite (t2_false _ _ (bref (s2p "NoneType"))) by reflexivity.
-      cbn [bind isFNone]. none_case Hn. chain.
-      change (fld_getattr h (PStruct (s2p "NoneField") [(s2p "_ty", bref (s2p "NoneType"))]) (s2p "_ty"))
-        with (@Ok pyval (bref (s2p "NoneType"))).
-      destruct j as [| | | |l| | | |kv| | |]; try reflexivity.
-      + destruct l; reflexivity.
-      + destruct kv as [|p kv]; [reflexivity|].
-        cbn [py_isinstance existsb isinstance1 orb bind py_star_kwargs deser_body].
-        pose proof (kw_nonempty p kv) as Hk. destruct (kw_of_pairs (p :: kv)) as [[|q r]|ex]; try reflexivity.
-        * destruct Hk.
-        * subst. reflexivity.
+      cbn [bind isFNone]. none_case Hn. chain. reflexivity.
     - (* FAnything *)
       unfold src_deserialize_single_field. cbn [fld_py]. cls_eval. rewrite first_test.
       cbn [bind isFNone]. none_case Hn. chain. cbn [deser_body].
@@ -1244,14 +1308,14 @@ Section Field.
       cbn [bind isFNone]. none_case Hn. chain. cbn [py_meth].
       change (PStruct (s2p "Enum") [(s2p "_is_enum", PBool false); (s2p "values", PList vs)]) with (fld_py (FEnumLit vs)).
       rewrite (Hdes (FEnumLit vs) j eq_refl).
-      apply ret_local. intros v Hv. exact (body_bound ku ign (FEnumLit vs) j v Hn Hj Hv).
+      apply ret_serializable. intros v Hv. exact (body_bound ku ign (FEnumLit vs) j v Hn Hj Hv).
     - (* FEnumCls *)
       unfold src_deserialize_single_field. cbn [fld_py]. cls_eval. rewrite first_test.
       cbn [bind isFNone]. none_case Hn. chain. cbn [py_meth].
       change (PStruct (s2p "Enum") [(s2p "_is_enum", PBool true); (s2p "_enum_class", enum_cls_py cls ms);
                                     (s2p "_enum_class.__name__", PStr cls)]) with (fld_py (FEnumCls cls ms)).
       rewrite (Hdes (FEnumCls cls ms) j eq_refl).
-      apply ret_local. intros v Hv. exact (body_bound ku ign (FEnumCls cls ms) j v Hn Hj Hv).
+      apply ret_serializable. intros v Hv. exact (body_bound ku ign (FEnumCls cls ms) j v Hn Hj Hv).
     - (* FSeqAny *)
       destruct fuel as [|[|fuel]]; [cbn [fdepth] in Hfuel; lia | cbn [fdepth] in Hfuel; lia |].
       unfold src_deserialize_single_field. destruct k; cbn [fld_py seq_cls seq_ty]; cls_eval; rewrite first_test.
@@ -1277,7 +1341,7 @@ Section Field.
         rewrite (list_like_each (F fuel) _ TList g j name (PBool ku) mapper camel
                                 (fun x => deser_val re_match e ens rec ku false g x)
                                 (fun x => doc_ok x && order_ok ku g x));
-          [ | reflexivity | exact Hg | exact (doc_ok_not_set _ Hj) | exact (fun l => each_items ku g j l Hj Ho) ].
+          [ | left; split; reflexivity | exact Hg | exact (doc_ok_not_set _ Hj) | exact (fun l => each_items ku g j l Hj Ho) ].
         apply ret_local2. intros v Hv. exact (body_bound ku ign (FSeqEach SeqList g sz u) j v Hn Hj Hv).
       + rewrite (t2_false _ _ (bref (s2p "deque"))) by reflexivity.
         cbn [bind isFNone]. none_case Hn. chain.
@@ -1285,7 +1349,7 @@ Section Field.
         rewrite (list_like_each (F fuel) _ TDeque g j name (PBool ku) mapper camel
                                 (fun x => deser_val re_match e ens rec ku false g x)
                                 (fun x => doc_ok x && order_ok ku g x));
-          [ | reflexivity | exact Hg | exact (doc_ok_not_set _ Hj) | exact (fun l => each_items ku g j l Hj Ho) ].
+          [ | left; split; reflexivity | exact Hg | exact (doc_ok_not_set _ Hj) | exact (fun l => each_items ku g j l Hj Ho) ].
         apply ret_local2. intros v Hv. exact (body_bound ku ign (FSeqEach SeqDeque g sz u) j v Hn Hj Hv).
     - (* FSeqPos *)
       cbn [fdepth] in Hfuel. rewrite fdepth_mx in Hfuel. destruct fuel as [|[|fuel]]; [lia | lia |].
@@ -1302,14 +1366,14 @@ Section Field.
       + rewrite (t2_false _ _ (bref (s2p "list"))) by reflexivity.
         cbn [bind isFNone]. none_case Hn. chain.
         rewrite wrap_array.
-        rewrite (list_like_pos (F fuel) _ TList fs j name (PBool ku) mapper camel (deser_val re_match e ens rec ku false));
-          [ | reflexivity | exact (doc_ok_not_set _ Hj) | exact HP ].
+        rewrite (list_like_pos (F fuel) _ TList fs j name (PBool ku) mapper camel (deser_val re_match e ens rec ku false) false);
+          [ | reflexivity | reflexivity | discriminate | exact (doc_ok_not_set _ Hj) | exact HP ].
         apply ret_local2. intros v Hv. exact (body_bound ku ign (FSeqPos SeqList fs sz u a) j v Hn Hj Hv).
       + rewrite (t2_false _ _ (bref (s2p "deque"))) by reflexivity.
         cbn [bind isFNone]. none_case Hn. chain.
         rewrite wrap_deque.
-        rewrite (list_like_pos (F fuel) _ TDeque fs j name (PBool ku) mapper camel (deser_val re_match e ens rec ku false));
-          [ | reflexivity | exact (doc_ok_not_set _ Hj) | exact HP ].
+        rewrite (list_like_pos (F fuel) _ TDeque fs j name (PBool ku) mapper camel (deser_val re_match e ens rec ku false) false);
+          [ | reflexivity | reflexivity | discriminate | exact (doc_ok_not_set _ Hj) | exact HP ].
         apply ret_local2. intros v Hv. exact (body_bound ku ign (FSeqPos SeqDeque fs sz u a) j v Hn Hj Hv).
     - (* FSet, no items *)
       destruct fuel as [|[|fuel]]; [cbn [fdepth] in Hfuel; lia | cbn [fdepth] in Hfuel; lia |].
@@ -1336,7 +1400,7 @@ Section Field.
         rewrite (list_like_each (F fuel) _ TSet g j name (PBool ku) mapper camel
                                 (fun x => deser_val re_match e ens rec ku false g x)
                                 (fun x => doc_ok x && order_ok ku g x));
-          [ | reflexivity | exact Hg | exact (doc_ok_not_set _ Hj) | exact (fun l => each_items ku g j l Hj Ho) ].
+          [ | left; split; reflexivity | exact Hg | exact (doc_ok_not_set _ Hj) | exact (fun l => each_items ku g j l Hj Ho) ].
         apply ret_local2. intros v Hv. exact (body_bound ku ign (FSet true (Some g) sz) j v Hn Hj Hv).
       + rewrite (t2_false _ _ (bref (s2p "set"))) by reflexivity.
         cbn [bind isFNone]. none_case Hn. chain.
@@ -1344,7 +1408,7 @@ Section Field.
         rewrite (list_like_each (F fuel) _ TSet g j name (PBool ku) mapper camel
                                 (fun x => deser_val re_match e ens rec ku false g x)
                                 (fun x => doc_ok x && order_ok ku g x));
-          [ | reflexivity | exact Hg | exact (doc_ok_not_set _ Hj) | exact (fun l => each_items ku g j l Hj Ho) ].
+          [ | left; split; reflexivity | exact Hg | exact (doc_ok_not_set _ Hj) | exact (fun l => each_items ku g j l Hj Ho) ].
         apply ret_local2. intros v Hv. exact (body_bound ku ign (FSet false (Some g) sz) j v Hn Hj Hv).
     - (* FTuple *)
       cbn [fdepth] in Hfuel. rewrite fdepth_mx in Hfuel. destruct fuel as [|[|fuel]]; [lia | lia |].
@@ -1353,24 +1417,44 @@ Section Field.
                       deser_val re_match e ens rec ku false g x) fs).
       { apply Forall_forall. intros g Hin x nm Hx1 Hx2. rewrite Forall_forall in IHfs.
         apply (IHfs g Hin); [pose proof (fdepths_in g fs Hin); lia | exact Hx1 | exact Hx2]. }
-      assert (HP : forall l, list_like j = Some l ->
-                 pos_hyp (F fuel) mapper (PBool ku) camel (deser_val re_match e ens rec ku false) fs l).
-      { intros l E. cbn [order_ok] in Ho. rewrite E in Ho.
-        exact (pos_hyp_of (F fuel) ku mapper camel fs l HF (doc_ok_items _ _ Hj E) Ho). }
       unfold src_deserialize_single_field. cbn [fld_py]. cls_eval. rewrite first_test.
       rewrite (t2_false _ _ (bref (s2p "tuple"))) by reflexivity.
       cbn [bind isFNone]. none_case Hn. chain.
       rewrite wrap_tuple.
-      rewrite (list_like_pos (F fuel) _ TTuple fs j name (PBool ku) mapper camel (deser_val re_match e ens rec ku false));
-        [ | reflexivity | exact (doc_ok_not_set _ Hj) | exact HP ].
-      apply ret_local2. intros v Hv. exact (body_bound ku ign (FTuple fs u) j v Hn Hj Hv).
+      assert (Hone : (exists g, fs = [g]) \/ Nat.eqb (length fs) 1 = false).
+      { destruct fs as [|g [|g' fs']]; [right; reflexivity | left; exists g; reflexivity | right; reflexivity]. }
+      destruct Hone as [[g ->]|Hone].
+      + (* one item field: every element *)
+        inversion HF as [|g' fs' Hg0 _]; subst.
+        assert (Hg : forall x nm, doc_ok x && order_ok ku g x = true ->
+                   r_deserialize_single_field (F fuel) (fld_py g) x nm mapper (PBool ku) camel (PBool false) =
+                   deser_val re_match e ens rec ku false g x).
+        { intros x nm Hx. apply andb_true_iff in Hx as [Hx1 Hx2]. exact (Hg0 x nm Hx1 Hx2). }
+        cbn [order_ok] in Ho.
+        rewrite (list_like_each (F fuel) _ TTuple g j name (PBool ku) mapper camel
+                                (fun x => deser_val re_match e ens rec ku false g x)
+                                (fun x => doc_ok x && order_ok ku g x));
+          [ | right; split; reflexivity | exact Hg | exact (doc_ok_not_set _ Hj) | exact (fun l => each_items ku g j l Hj Ho) ].
+        apply ret_local2. intros v Hv. exact (body_bound ku ign (FTuple [g] u) j v Hn Hj Hv).
+      + assert (HP : forall l, list_like j = Some l ->
+                   pos_hyp (F fuel) mapper (PBool ku) camel (deser_val re_match e ens rec ku false) fs l).
+        { intros l E.
+          assert (Ho' : order_ok ku (FSeqPos SeqList fs no_sizec false None) j = true).
+          { destruct fs as [|g0 [|g1 fs']]; [exact Ho | discriminate Hone | exact Ho]. }
+          cbn [order_ok] in Ho'. rewrite E in Ho'.
+          exact (pos_hyp_of (F fuel) ku mapper camel fs l HF (doc_ok_items _ _ Hj E) Ho'). }
+        rewrite (list_like_pos (F fuel) _ TTuple fs j name (PBool ku) mapper camel (deser_val re_match e ens rec ku false) true);
+          [ | reflexivity | reflexivity | intros _; exact Hone | exact (doc_ok_not_set _ Hj) | exact HP ].
+        rewrite (deser_body_tuple_pos ku fs u j Hone).
+        apply ret_local2. intros v Hv. rewrite <- (deser_body_tuple_pos ku fs u j Hone) in Hv.
+        exact (body_bound ku ign (FTuple fs u) j v Hn Hj Hv).
     - (* FMapAny *)
       cbn [fdepth] in Hfuel. destruct fuel as [|[|fuel]]; [lia | lia |].
       unfold src_deserialize_single_field. cbn [fld_py]. cls_eval. rewrite first_test.
       rewrite (t2_false _ _ (bref (s2p "dict"))) by reflexivity.
       cbn [bind isFNone]. none_case Hn. chain.
       rewrite wrap_map.
-      rewrite (map_any_eq (F (S fuel)) j name camel (fun x => negb (is_unbound x))).
+      rewrite (map_any_eq (F (S fuel)) j name camel (PBool ku) (fun x => negb (is_unbound x))).
       + apply ret_local. intros v Hv. exact (body_bound ku ign (FMapAny sz) j v Hn Hj Hv).
       + intros x nm Hx. rewrite F_dsf. apply dsf_pynone. destruct (is_unbound x); [discriminate Hx | reflexivity].
       + intros kv ->. destruct (doc_ok_dict kv Hj) as [H1 [H2 H3]]. split; [|exact H2].
@@ -1383,10 +1467,10 @@ Section Field.
       rewrite (t2_false _ _ (bref (s2p "dict"))) by reflexivity.
       cbn [bind isFNone]. none_case Hn. chain.
       rewrite wrap_map.
-      rewrite (map_kv_eq (F (S fuel)) kf vf j name camel
-                         (fun x => deser_val re_match e ens rec true false kf x)
-                         (fun x => deser_val re_match e ens rec true false vf x)
-                         (fun x => doc_ok x && order_ok true kf x) (fun x => doc_ok x && order_ok true vf x)).
+      rewrite (map_kv_eq (F (S fuel)) kf vf j name camel (PBool ku)
+                         (fun x => deser_val re_match e ens rec ku false kf x)
+                         (fun x => deser_val re_match e ens rec ku false vf x)
+                         (fun x => doc_ok x && order_ok ku kf x) (fun x => doc_ok x && order_ok ku vf x)).
       + apply ret_local. intros v Hv. exact (body_bound ku ign (FMapKV kf vf sz) j v Hn Hj Hv).
       + intros x nm Hx. apply andb_true_iff in Hx as [Hx1 Hx2]. apply IHk; [lia | exact Hx1 | exact Hx2].
       + intros x nm Hx. apply andb_true_iff in Hx as [Hx1 Hx2]. apply IHv; [lia | exact Hx1 | exact Hx2].
